@@ -106,57 +106,61 @@ func vStepMaker(role int, st StateType) {
 		}
 		zzverif.Assert(found, "C26.csv_claim_marks_peer_suspicious")
 	}
+	// ---- C23: a maker never sends its swap key, its preimage or fresh key material ----
+	for i := range w.sends {
+		zzverif.AssertNoFlow("C23.no_secret_in_maker_message", w.sends[i].payload, "privkey", "claimpreimage", "rand.GetPreimage", "newprivkey")
+	}
 	_ = messages.MESSAGETYPE_CANCELED
 }
 
-// zzverif:also C15 C22 C26
+// zzverif:also C15 C22 C23 C26
 func H_C07_step_or_AwaitFeeInvoicePayment() {
 	vStepMaker(rOutReceiver, State_SwapOutReceiver_AwaitFeeInvoicePayment)
 }
 
-// zzverif:also C15 C22 C26
+// zzverif:also C15 C22 C23 C26
 func H_C07_step_or_BroadcastOpeningTx() {
 	vStepMaker(rOutReceiver, State_SwapOutReceiver_BroadcastOpeningTx)
 }
 
-// zzverif:also C15 C22 C26
+// zzverif:also C15 C22 C23 C26
 func H_C07_step_or_SendTxBroadcasted() {
 	vStepMaker(rOutReceiver, State_SwapOutReceiver_SendTxBroadcastedMessage)
 }
 
-// zzverif:also C15 C22 C26
+// zzverif:also C15 C22 C23 C26
 func H_C07_step_or_AwaitClaimInvoicePayment() {
 	vStepMaker(rOutReceiver, State_SwapOutReceiver_AwaitClaimInvoicePayment)
 }
 
-// zzverif:also C15 C22 C26
+// zzverif:also C15 C22 C23 C26
 func H_C07_step_or_ClaimSwapCoop() { vStepMaker(rOutReceiver, State_SwapOutReceiver_ClaimSwapCoop) }
 
-// zzverif:also C15 C22 C26
+// zzverif:also C15 C22 C23 C26
 func H_C07_step_or_ClaimSwapCsv() { vStepMaker(rOutReceiver, State_SwapOutReceiver_ClaimSwapCsv) }
 
-// zzverif:also C15 C22 C26
+// zzverif:also C15 C22 C23 C26
 func H_C07_step_or_WaitCsv() { vStepMaker(rOutReceiver, State_WaitCsv) }
 
-// zzverif:also C15 C22 C26
+// zzverif:also C15 C22 C23 C26
 func H_C07_step_is_AwaitAgreement() { vStepMaker(rInSender, State_SwapInSender_AwaitAgreement) }
 
-// zzverif:also C15 C22 C26
+// zzverif:also C15 C22 C23 C26
 func H_C07_step_is_BroadcastOpeningTx() { vStepMaker(rInSender, State_SwapInSender_BroadcastOpeningTx) }
 
-// zzverif:also C15 C22 C26
+// zzverif:also C15 C22 C23 C26
 func H_C07_step_is_SendTxBroadcasted() {
 	vStepMaker(rInSender, State_SwapInSender_SendTxBroadcastedMessage)
 }
 
-// zzverif:also C15 C22 C26
+// zzverif:also C15 C22 C23 C26
 func H_C07_step_is_AwaitClaimPayment() { vStepMaker(rInSender, State_SwapInSender_AwaitClaimPayment) }
 
-// zzverif:also C15 C22 C26
+// zzverif:also C15 C22 C23 C26
 func H_C07_step_is_ClaimSwapCoop() { vStepMaker(rInSender, State_SwapInSender_ClaimSwapCoop) }
 
-// zzverif:also C15 C22 C26
+// zzverif:also C15 C22 C23 C26
 func H_C07_step_is_ClaimSwapCsv() { vStepMaker(rInSender, State_SwapInSender_ClaimSwapCsv) }
 
-// zzverif:also C15 C22 C26
+// zzverif:also C15 C22 C23 C26
 func H_C07_step_is_WaitCsv() { vStepMaker(rInSender, State_WaitCsv) }
